@@ -208,6 +208,9 @@ def option_variants(name, data, rng):
         out.append(dict(embedding_type=et, k=k))
     for nc in range(1, d + 1):
       out.append(dict(n_components=nc))
+      # the product embedding_type x n_components (k drawn)
+      for et in ('weighted', 'orthonormalized', 'plain'):
+        out.append(dict(n_components=nc, embedding_type=et, k=[None, 1, 2, 3][int(rng.integers(0, 4))]))
   if name in ('RCA', 'RCA_Supervised'):
     for nc in range(1, d + 1):
       out.append(dict(n_components=nc))
